@@ -703,7 +703,51 @@ fn snapshot_from_files(raw: &[RawEntry], it: &mut Interner) -> Option<(String, u
     Some((s.session_id().hyphenated().to_string(), s.serial(), objs))
 }
 
+/// Number of delta entries of the notification file on disk (None if absent / unreadable).
+fn notification_delta_count(raw: &[RawEntry]) -> Option<usize> {
+    let nb = raw.iter().find(|e| e.rel == "rrdp/notification.xml")?.bytes.clone()?;
+    rpki::rrdp::NotificationFile::parse(nb.as_slice()).ok().map(|n| n.deltas().len())
+}
+
 // ---------------------------------------------------------------- histories (in-process)
+
+/// The boundary of `rrdp_delta_files_max_nr` (scripted, in every run): configurations with a small maximum,
+/// min_nr strictly below it (0 and 1 included), min_seconds = 0 and a generous max_seconds - so that no old delta
+/// at an index >= max_nr - 1 is protected by a configured minimum and none is too old - plus one configuration
+/// with min_nr = max_nr as the contrast (there the minimum explains the excess: rest of finding F11a).
+fn boundary_cfgs(thorough: bool) -> Vec<RetCfg> {
+    let mut pairs: Vec<(u64, u64)> = vec![(0, 1), (0, 2), (1, 2), (0, 3), (1, 3), (2, 3), (0, 4), (1, 4), (3, 4), (3, 3)];
+    if thorough { pairs.extend([(2, 4), (0, 5), (1, 5), (4, 5), (2, 6), (5, 6), (2, 2), (4, 4)]); }
+    pairs.into_iter().enumerate().map(|(i, (min_nr, max_nr))| RetCfg { min_nr, min_secs: 0, max_nr, max_secs: if i % 2 == 0 { HUGE } else { 7200 }, archive: false }).collect()
+}
+
+/// One history per boundary configuration on one server: a large object is published and a session reset drops the
+/// (large) delta that carried it; then max_nr + 3 (thorough: + 6) times one small element and `update_rrdp_if_needed`,
+/// i.e. more consecutive RRDP updates in one session than the maximum allows deltas, every delta tiny against the
+/// snapshot so that the size rule stays out of the way.
+#[allow(clippy::too_many_arguments)]
+fn boundary_scenario(out: &mut Out, it: &mut Interner, args: &Args, rec: &Recorder, g: &mut Gen, tokio: &tokio::runtime::Runtime, strict: bool, hist: &mut u64, cfg_hist: &mut BTreeMap<String, u64>) {
+    let thorough = args.thorough();
+    let mut rng = Rng::new(args.seed ^ 0x11a7_b0d7);
+    let cfgs = boundary_cfgs(thorough);
+    let dir = args.out.join(format!("srv-{}-boundary", args.seed));
+    let _ = std::fs::remove_dir_all(&dir);
+    let dirs = dir.to_string_lossy().to_string();
+    let mut srv = match try_open_server(&dirs, &format!("memory:{}", args.seed.wrapping_mul(7919).wrapping_add(90_001)), &cfgs[0], true, tokio) {
+        Ok(s) => s,
+        Err(e) => { out.impl_failures.push(json!({"index": Value::Null, "class": {"kind": "write_failed", "op": "init", "f11c": false}, "what": e, "request": "RepositoryManager::init on an empty repository directory"})); return }
+    };
+    for h in ["alice", "bob"] { srv.create_publisher(h).expect("create publisher"); }
+    for rc in cfgs {
+        *hist += 1;
+        *cfg_hist.entry(format!("boundary:min_nr={},max_nr={},min_s={},max_s={}", rc.min_nr, rc.max_nr, rc.min_secs, rc.max_secs)).or_default() += 1;
+        let mut script: Vec<&'static str> = vec!["reset", "publish_big", "update", "reset"];
+        for _ in 0..(rc.max_nr + if thorough { 6 } else { 3 }) { script.push("publish_one"); script.push("update"); }
+        if !run_history(out, it, &mut srv, rec, &mut rng, g, rc, *hist, strict, 0, false, Some(script)) { break }
+    }
+    drop(srv);
+    if std::env::var("KV_KEEP").is_err() { let _ = std::fs::remove_dir_all(&dir); }
+}
 
 fn grid(rng: &mut Rng, thorough: bool, f11b: bool) -> Vec<RetCfg> {
     let mut all = Vec::new();
@@ -724,14 +768,16 @@ fn grid(rng: &mut Rng, thorough: bool, f11b: bool) -> Vec<RetCfg> {
 }
 
 #[allow(clippy::too_many_arguments)]
-fn run_history(out: &mut Out, it: &mut Interner, srv: &mut Server, rec: &Recorder, rng: &mut Rng, g: &mut Gen, rc: RetCfg, hist: u64, strict: bool, steps: u64, hostcase: bool) -> bool {
+fn run_history(out: &mut Out, it: &mut Interner, srv: &mut Server, rec: &Recorder, rng: &mut Rng, g: &mut Gen, rc: RetCfg, hist: u64, strict: bool, steps: u64, hostcase: bool, scripted_only: Option<Vec<&'static str>>) -> bool {
     let pubs = ["alice", "bob", "a/b"];
-    let small = rng.chance(25); // all objects small: the size rule of retention bites
+    // all objects small: the size rule of retention bites (never in a fully scripted history)
+    let small = if scripted_only.is_some() { false } else { rng.chance(25) };
     let repo = srv.repo_dir().to_string_lossy().to_string();
     // snapshots of earlier serials of the current session, as read from the files
     let mut olds: Vec<(u64, Vec<(AUri, u64, u64)>)> = Vec::new();
     let mut cur_session = String::new();
-    let mut script: Vec<&str> = vec!["reset", "publish_big", "update"];
+    let fully_scripted = scripted_only.is_some();
+    let mut script: Vec<&str> = scripted_only.unwrap_or_else(|| vec!["reset", "publish_big", "update"]);
     let mut step = 0u64;
     let mut slept = false;
     loop {
@@ -741,13 +787,39 @@ fn run_history(out: &mut Out, it: &mut Interner, srv: &mut Server, rec: &Recorde
         if !scripted { step += 1 }
         let pre = srv.observe(it);
         match op {
+            "publish_one" => {
+                // one small element for alice: deltas that stay far below the size of the snapshot
+                if !pre.pubs.iter().any(|(h, _)| h == "alice") { let _ = srv.create_publisher("alice"); }
+                let view = srv.list("alice");
+                let mine: Vec<&(String, rpki::rrdp::Hash)> = view.iter().filter(|(u, _)| u.rsplit('/').next().map(|n| n.starts_with("one")).unwrap_or(false)).collect();
+                let r = rng.below(100);
+                let els = if !mine.is_empty() && r < 35 {
+                    let (u, hsh) = (*rng.pick(&mine)).clone(); g.next_content += 1;
+                    vec![GElem::Upd { uri: u, old: hsh, content: g.next_content, pad: 0 }]
+                } else if mine.len() > 1 && r < 50 {
+                    let (u, hsh) = (*rng.pick(&mine)).clone();
+                    vec![GElem::Wdr { uri: u, old: hsh }]
+                } else {
+                    g.fresh += 1; g.next_content += 1;
+                    vec![GElem::Pub { uri: format!("{RSYNC_BASE}alice/one{}.roa", g.fresh), content: g.next_content, pad: 0 }]
+                };
+                if let Err(e) = srv.publish("alice", &els, it) {
+                    out.impl_failures.push(json!({"index": Value::Null, "class": {"kind": "unexpected_error", "op": "publish"}, "what": e, "elements": json_elems(&els)}));
+                }
+                out.bump("publish_one");
+            }
             "publish" | "publish2" | "publish_big" => {
                 let reg: Vec<String> = pre.pubs.iter().map(|(h, _)| h.clone()).filter(|h| pubs.contains(&h.as_str())).collect();
                 if reg.is_empty() { let _ = srv.create_publisher(pubs[0]); continue }
                 for _ in 0..(if op == "publish2" { 2 } else { 1 }) {
-                    let h = rng.pick(&reg).clone();
+                    let h = if fully_scripted { "alice".to_string() } else { rng.pick(&reg).clone() };
                     let view = srv.list(&h);
-                    let mut els = gen_delta(g, rng, &h, &view, small, hostcase);
+                    // fully scripted: nothing but the large object (published or replaced), so that it is there for the whole history
+                    let mut els = if fully_scripted { Vec::new() } else { gen_delta(g, rng, &h, &view, small, hostcase) };
+                    if fully_scripted { if let Some((u, hsh)) = view.iter().find(|(u, _)| u.ends_with("big.cer")).cloned() {
+                        g.next_content += 1;
+                        els.push(GElem::Upd { uri: u, old: hsh, content: g.next_content, pad: 6000 });
+                    } }
                     if op == "publish_big" && !small && !view.iter().any(|(u, _)| u.ends_with("big.cer")) {
                         g.next_content += 1;
                         els.push(GElem::Pub { uri: format!("{RSYNC_BASE}{h}/big.cer"), content: g.next_content, pad: 6000 });
@@ -813,9 +885,18 @@ fn run_history(out: &mut Out, it: &mut Interner, srv: &mut Server, rec: &Recorde
                     "serial_before": pre.serial, "serial_after": post.serial, "session_changed": pre.session != post.session, "staged_before": staged_nonempty,
                     "deltas_before": pre.deltas.iter().map(|d| d.serial).collect::<Vec<_>>(), "deltas_after": post.deltas.iter().map(|d| d.serial).collect::<Vec<_>>(),
                     "delta_ages_ms_before": pre.deltas.iter().map(|d| (now - d.time) / 1000).collect::<Vec<_>>(),
+                    "scenario": if fully_scripted { "max_nr_boundary" } else { "history" },
+                    "deltas_in_notification_file_after": notification_delta_count(&post_raw),
                     "class": {"retained_over_max_nr": over && strict, "protected_by_configured_minimum": explained, "cause": cause, "max_nr_zero_panic": panicked && rc.max_nr == 0, "panicked": panicked}});
                 out.push(term, recj, "trans", op == "reset" || staged_nonempty);
                 if over { out.bump("transitions_retaining_more_than_max_nr"); }
+                if over && !explained { out.bump("transitions_retaining_more_than_max_nr_unprotected"); }
+                if fully_scripted && op == "update" && post.serial == pre.serial + 1 {
+                    out.bump("boundary_updates");
+                    if pre.deltas.len() + 1 > limit { out.bump("boundary_updates_with_more_candidates_than_max_nr"); }
+                    if pre.deltas.len() + 1 > limit && post.deltas.len() == limit { out.bump("boundary_updates_cut_to_exactly_max_nr"); }
+                    if post.deltas.len() < (pre.deltas.len() + 1).min(limit) { out.bump("boundary_updates_cut_below_max_nr_by_size_or_age"); }
+                }
                 if !ok && !panicked { out.impl_failures.push(json!({"index": Value::Null, "class": {"kind": "write_failed", "op": op, "f11c": old_nonempty(&pre_raw)}, "what": err.clone()})); }
                 // the files
                 if op == "reset" || staged_nonempty {
@@ -1147,12 +1228,14 @@ fn run(args: &Args) -> i32 {
             for rc in chunk {
                 hist += 1;
                 *cfg_hist.entry(format!("min_nr={},max_nr={},min_s={},max_s={}{}", rc.min_nr, rc.max_nr, rc.min_secs, rc.max_secs, if rc.archive { ",archive" } else { "" })).or_default() += 1;
-                if !run_history(&mut out, &mut it, &mut srv, &rec, &mut rng, &mut g, *rc, hist, strict, steps, true) { break }
+                if !run_history(&mut out, &mut it, &mut srv, &rec, &mut rng, &mut g, *rc, hist, strict, steps, true, None) { break }
             }
             drop(srv);
             if std::env::var("KV_KEEP").is_err() { let _ = std::fs::remove_dir_all(&dir); }
         }
     }
+    let boundary = args.get_u64("maxnr", 1) == 1;
+    if boundary { boundary_scenario(&mut out, &mut it, args, &rec, &mut g, &tokio, strict, &mut hist, &mut cfg_hist); }
     set_probe(None);
     if args.get_u64("cuts", 1) == 1 { cut_scenario(&mut out, &mut it, args, &mut rng); }
     let mut f11b = Value::Null;
@@ -1183,9 +1266,16 @@ fn run(args: &Args) -> i32 {
     write_json(&args.out.join("stats.json"), &json!({
         "scenario": "c11", "seed": args.seed, "tier": args.tier, "histories": hist,
         "evaluations": out.w.total, "distinct_nontrivial": out.distinct.len(),
-        "rule": "histories on real RepositoryManager instances with a disk repository directory: each history starts with a session reset and a publication that includes one large object (in 25 % of the histories every object is small so that the size rule of delta retention bites), then 11 (thorough 22) random requests: publish a valid delta of 1-4 elements for alice / bob / a/b (44 %), update_rrdp_if_needed (40 %), two publications before the next update (5 %), session reset (4 %), remove (4 %) / create (3 %) a publisher; host names re-spelled in 15 % of the elements; one retention configuration per history from {min_nr 0,1,5} x {max_nr 1,2,50} x {min_seconds 0,1,huge} x {max_seconds 0,1,huge} (quick: seeded sample of 14 + the defaults + three fixed ones incl. archive mode; thorough: all 81), histories with a one-second limit sleep once across it and keep delta ages away from it. Cases: one per update/reset transition (stored RepositoryContent before/after), one per repository write for the RRDP files and one for the rsync tree (directory tree before/after, parsed files, recorded mutation trace, simulated clients at every earlier serial of the session, get_publisher_details), and for EVERY cut index of one update a crash in a worker subprocess (tree after the crash) plus the next write by a fresh runtime (publish+update / session reset / write_repository in turn). Non-trivial = every file case and every transition that changes the state; distinct = distinct case terms",
+        "rule": "histories on real RepositoryManager instances with a disk repository directory: each history starts with a session reset and a publication that includes one large object (in 25 % of the histories every object is small so that the size rule of delta retention bites), then 11 (thorough 22) random requests: publish a valid delta of 1-4 elements for alice / bob / a/b (44 %), update_rrdp_if_needed (40 %), two publications before the next update (5 %), session reset (4 %), remove (4 %) / create (3 %) a publisher; host names re-spelled in 15 % of the elements; one retention configuration per history from {min_nr 0,1,5} x {max_nr 1,2,50} x {min_seconds 0,1,huge} x {max_seconds 0,1,huge} (quick: seeded sample of 14 + the defaults + three fixed ones incl. archive mode; thorough: all 81), histories with a one-second limit sleep once across it and keep delta ages away from it. In every run (--maxnr 1) scripted histories at the boundary of the maximum number on one more server: max_nr 1..4 (thorough ..6) with min_nr strictly below it (0 and 1 included; one history with min_nr = max_nr as the contrast), min_seconds 0, max_seconds 7200 / huge; a large object is published, a session reset drops its delta, then max_nr + 3 (thorough + 6) times one small element for alice (publish / update / withdraw) followed by update_rrdp_if_needed - more consecutive updates in one session than max_nr, each delta tiny against the snapshot. Cases: one per update/reset transition (stored RepositoryContent before/after), one per repository write for the RRDP files and one for the rsync tree (directory tree before/after, parsed files, recorded mutation trace, simulated clients at every earlier serial of the session, get_publisher_details), and for EVERY cut index of one update a crash in a worker subprocess (tree after the crash) plus the next write by a fresh runtime (publish+update / session reset / write_repository in turn). Non-trivial = every file case and every transition that changes the state; distinct = distinct case terms",
         "case_kind_distribution": out.kinds, "config_distribution": cfg_hist, "op_distribution": out.stats,
-        "strict_max_nr": strict, "rsync_cuts": args.get_u64("rsynccut", 1) == 1, "f11b_replay": f11b, "candidate_replays": candidates,
+        "strict_max_nr": strict,
+        "max_nr_boundary": {"enabled": boundary, "configs": if boundary { boundary_cfgs(thorough).iter().map(|c| c.json()).collect::<Vec<_>>() } else { Vec::new() },
+            "updates": out.stats.get("boundary_updates").copied().unwrap_or(0),
+            "updates_with_more_candidates_than_max_nr": out.stats.get("boundary_updates_with_more_candidates_than_max_nr").copied().unwrap_or(0),
+            "updates_cut_to_exactly_max_nr": out.stats.get("boundary_updates_cut_to_exactly_max_nr").copied().unwrap_or(0),
+            "updates_cut_below_max_nr_by_size_or_age": out.stats.get("boundary_updates_cut_below_max_nr_by_size_or_age").copied().unwrap_or(0),
+            "transitions_over_max_nr_not_protected_by_a_minimum": out.stats.get("transitions_retaining_more_than_max_nr_unprotected").copied().unwrap_or(0)},
+        "rsync_cuts": args.get_u64("rsynccut", 1) == 1, "f11b_replay": f11b, "candidate_replays": candidates,
         "samples": out.samples, "impl_failures": out.impl_failures,
     }));
     println!("c11: {} cases ({:?}) from {} histories; impl failures {}", out.w.total, out.kinds, hist, n_fail);
